@@ -34,6 +34,8 @@ FRAGS = {
     'x4range': {'type': 'integer', 'minimum': 0, 'exclusiveMinimum': True, 'maximum': 6, 'exclusiveMaximum': True},
     'x7range': {'type': 'integer', 'exclusiveMinimum': 0, 'exclusiveMaximum': 6},
     'div3': {'type': 'integer', 'divisibleBy': 5},
+    # the annotation keyword "default" (a validator does not fill anything in: an omitted argument is the PYTHON default of the parameter)
+    'dflt': {'type': 'array', 'default': [7]},
 }
 DIALECTS = {'draft-03': 'http://json-schema.org/draft-03/schema#', 'draft-04': 'http://json-schema.org/draft-04/schema#',
             'draft-06': 'http://json-schema.org/draft-06/schema#', 'draft-07': 'http://json-schema.org/draft-07/schema#'}
@@ -189,7 +191,7 @@ def dispatch(d, is_async, text):
 def gen_js(ctx):
     maxn = ctx.pick(2, 3)
     # (x4range / div3 only mean something under the dialect they belong to: they appear in the "$schema" cases below, never in undeclared schemas)
-    frs = ['none', 'int', 'enum', 'range'] if ctx.quick else [f for f in FRAGS if f not in ('x4range', 'div3')]
+    frs = ['none', 'int', 'enum', 'range'] if ctx.quick else [f for f in FRAGS if f not in ('x4range', 'div3', 'dflt')]
     for sig in js_signatures(maxn):
         n = len(sig)
         if n == 3:
@@ -201,6 +203,11 @@ def gen_js(ctx):
                 for addl in (None, False):
                     for excl in ((None, 'x') if n <= 1 else (None,)):
                         yield dict(part='js', sig=sig, frags=fr, required=req, addl=addl, excluded=excl)
+    for sig in js_signatures(2):
+        if sig and sig[0][1]:
+            for fr in ((('dflt',) + ('int',) * (len(sig) - 1)),):
+                for req in ((), (0,)):
+                    yield dict(part='js', sig=sig, frags=fr, required=req, addl=None, excluded=None)
     # schemas that declare their dialect with "$schema": keywords mean what that draft says
     for sig in js_signatures(1):
         if len(sig) == 1:
@@ -243,7 +250,9 @@ def run_js(case, rec):
         log = []
         v = vjs.JsonSchemaValidator(exclude_param=(lambda name, ann, default: name == excl) if excl else None)
         f, src = make_fn(sig, log, excluded=excl, is_async=(disp == 'async'))
-        f = v.validate(schema=schema)(f)
+        import copy
+        handed = copy.deepcopy(schema)          # the library gets its own copy: the oracle's schema cannot be touched by it
+        f = v.validate(schema=handed)(f)
         d = pjrpc.server.AsyncDispatcher() if disp == 'async' else pjrpc.server.Dispatcher()
         d.add(f, name='f')
         for inp in js_inputs(n, True, excl):
@@ -267,6 +276,9 @@ def run_js(case, rec):
                 rec.violation('C14:jsonschema:%s' % problem, dict(case, disp=disp, input=inp, source=src.split('\n')[0], schema=schema),
                               expected='executed' if accept else '-32602, not executed', observed=dict(response=resp, saw=list(log)))
             obs.append(problem)
+        if handed != schema:
+            rec.violation('C14:jsonschema:the schema object handed to the validator was modified by serving requests', dict(case, disp=disp),
+                          expected=schema, observed=handed)
     return tuple(obs)
 
 
